@@ -418,6 +418,14 @@ func genHold(t *rapid.T) WalkCase {
 		c.Bs[rapid.SampledFrom([]string{"y", "l", "cfg!"}).Draw(t, "nestkey")] = map[string]interface{}{"a": 1.0, "deep": map[string]interface{}{"b": []interface{}{1.0}}}
 	}
 	c.IntNumbers = rapid.IntRange(0, 4).Draw(t, "intNumbers") == 0
+	// null messages in the batch (a host that passes on what it parsed)
+	if len(c.Messages) > 1 && rapid.IntRange(0, 4).Draw(t, "nulls") == 2 {
+		for i := range c.Messages {
+			if i < len(c.Messages)-1 && rapid.IntRange(0, 2).Draw(t, fmt.Sprintf("null%d", i)) == 1 {
+				c.Messages[i] = nil
+			}
+		}
+	}
 	return c
 }
 
